@@ -4,6 +4,7 @@ import (
 	"encoding/json"
 	"fmt"
 	"go/constant"
+	"go/parser"
 	"go/token"
 	"go/types"
 	"math"
@@ -16,6 +17,7 @@ import (
 	"verif/internal/ev"
 	"verif/internal/explore"
 	"verif/internal/jh"
+	"verif/internal/norm"
 )
 
 // C11: numeric and boolean literals preserve value and type.
@@ -162,6 +164,14 @@ func c11Fast32(v float32, text string) string {
 	return ""
 }
 
+// c11SameExpr: two expression texts denote the same syntax tree up to redundant parentheses and
+// literal spelling (an implementation may legitimately drop parentheses it knows to be redundant).
+func c11SameExpr(a, b string) bool {
+	ea, err1 := parser.ParseExpr(a)
+	eb, err2 := parser.ParseExpr(b)
+	return err1 == nil && err2 == nil && norm.Expr(ea) == norm.Expr(eb)
+}
+
 func runC11(r *ev.Recorder) {
 	if r.Tier == ev.Thorough {
 		r.SetDeadline(40 * 60 * 1e9)
@@ -171,7 +181,7 @@ func runC11(r *ev.Recorder) {
 	r.Rule = "Complete domains: bool, all int8/uint8/int16/uint16 values (thorough: all 2^32 float32 bit patterns, non-finite skipped). " +
 		"Complete structured families for wider types: +-2^k+d (|d|<=2), all values with <=2 set bits, type limits +-1; float64/float32: every exponent x 24 mantissa patterns x sign, " +
 		"every m*10^k (m in 1..999, k in -330..310 resp. -50..40), subnormal extremes, +-0; complex: all pairs of a float pool. Each via Lit and (structured families) LitFunc. " +
-		"Oracle: go/types evaluates the rendered text as ONE constant expression; typed literals must have exactly the type, bare ones the default type, and the value (converted to the type) must equal the input. " +
+		"Every ordered pair of 25 values of all types (several with the same numeric value) inside 9 contexts (Call, Parens, Custom groups with operator separators, Index, Values, Dict, after LitRune/LitByte) must render each literal exactly as alone. Oracle: go/types evaluates the rendered text as ONE constant expression; typed literals must have exactly the type, bare ones the default type, and the value (converted to the type) must equal the input. " +
 		"distinct_nontrivial = distinct rendered texts"
 	r.Assume = []string{"go/types + go/constant constant evaluation and conversion rounding of the installed toolchain",
 		"-0.0 is compared with == (Go constants have no negative zero)",
@@ -323,6 +333,51 @@ func runC11(r *ev.Recorder) {
 		if after != 1 || n != 1 || got.Key() != want.Key() {
 			r.Violate(ev.Violation{Signature: "c11:litfunc-stateful", What: fmt.Sprintf("LitFunc with a function returning %v in turn: called %d times while building, %d times in all, renders %q, want %q", vals, after, n, got, want),
 				Case: ev.JSON(c11Case{Type: "litfunc-stateful"}), Detail: "LitFunc must call its function exactly once, when called"})
+		}
+	}
+
+	// a literal inside a larger expression renders exactly as it does alone (compositionality), and
+	// literals of different types with the same numeric value in ONE File do not influence each other
+	{
+		vals := []any{true, 65, int8(65), int16(65), int32(65), int64(65), uint(65), uint8(65), uint16(65), uint32(65), uint64(65), uintptr(65), float32(65), 65.0, complex64(65), complex128(65),
+			1.5, -2.5, complex128(1 + 2i), complex128(-1i), complex64(2 - 3i), complex128(0.5 + 4i), int32(-1), int32(0xD800), int64(1) << 40}
+		alone := func(v any) string { return jh.Raw(jen.Lit(v)).Out }
+		contexts := []struct {
+			name string
+			mk   func(items ...jen.Code) jen.Code
+		}{
+			{"Call", func(items ...jen.Code) jen.Code { return jen.Id("f").Call(items...) }},
+			{"Parens", func(items ...jen.Code) jen.Code { return jen.Parens(items[0]).Op("*").Parens(items[1]) }},
+			{"Custom(( ) *)", func(items ...jen.Code) jen.Code {
+				return jen.Custom(jen.Options{Open: "(", Close: ")", Separator: "*"}, items...)
+			}},
+			{"Custom(( ) -)", func(items ...jen.Code) jen.Code {
+				return jen.Custom(jen.Options{Open: "(", Close: ")", Separator: "-"}, items...)
+			}},
+			{"Index", func(items ...jen.Code) jen.Code { return jen.Id("a").Index(items...) }},
+			{"Values", func(items ...jen.Code) jen.Code { return jen.Index().Id("T").Values(items...) }},
+			{"Op chain", func(items ...jen.Code) jen.Code { return jen.Add(items[0]).Op("/").Add(items[1]) }},
+			{"Dict", func(items ...jen.Code) jen.Code {
+				return jen.Map(jen.Id("K")).Id("V").Values(jen.Dict{items[0]: items[1]})
+			}},
+			{"LitRune first", func(items ...jen.Code) jen.Code {
+				return jen.Id("g").Call(jen.LitRune(65), jen.LitByte(65), items[0], items[1])
+			}},
+		}
+		for _, cx := range contexts {
+			skeleton := jh.Raw(cx.mk(jen.Id("HOLE0"), jen.Id("HOLE1")))
+			for i, a := range vals {
+				for j, b := range vals {
+					got := jh.Raw(cx.mk(jen.Lit(a), jen.Lit(b)))
+					want := strings.NewReplacer("HOLE0", alone(a), "HOLE1", alone(b)).Replace(skeleton.Out)
+					r.Eval(1)
+					r.Distinct(fmt.Sprintf("ctx-%s-%d-%d", cx.name, i, j))
+					if !got.OK() || (got.Out != want && !c11SameExpr(got.Out, want)) {
+						r.Violate(ev.Violation{Signature: "c11:literal-in-context:" + cx.name, What: fmt.Sprintf("Lit(%T %v) and Lit(%T %v) inside %s render %q, want %q (each literal exactly as it renders alone)", a, a, b, b, cx.name, got, want),
+							Case: ev.JSON(c11Case{Type: "litfunc-stateful"}), Detail: "a literal's text changed because of its surroundings or of another literal in the same File"})
+					}
+				}
+			}
 		}
 	}
 
